@@ -387,7 +387,7 @@ func boundedInt32(c *Ctx, v ssa.Value, at ssa.Instruction, depth int, seen map[s
 				continue
 			}
 			if k, ok := constInt(cm.Y); ok && sameOrigin(cm.X, x.X) {
-				if (cm.Op == token.LEQ && k <= (1<<31)-1) || (cm.Op == token.LSS && k <= (1 << 31)) {
+				if (cm.Op == token.LEQ && k <= (1<<31)-1) || (cm.Op == token.LSS && k <= (1<<31)) {
 					return ""
 				}
 			}
